@@ -18,7 +18,7 @@ use hydro_std::request_response::join_responses;
 pub const META: PropMeta = PropMeta {
     id: "C39",
     quick_runs: 40_000,
-    thorough_runs: 100_000_000,
+    thorough_runs: 40_000_000,
     rule: "each run picks a program (collect_quorum / collect_quorum_with_response with (min,max) in {(1,1),(2,2),(2,3),(3,3),(1,3)} over a totally ordered response stream, (2,3)/(2,2) over an unordered one; join_responses), draws a response sequence from the run seed (<=3 keys, at most max responses per key, Ok/Err mix, uniquely numbered payloads, split into 1-3 phases with or without quiescence barriers) and 4096 decision bytes for CompiledSim::fuzz_repro. Distinct = distinct hash of (program, workload, decision log); non-trivial = at least one key reached its quorum (or one response was joined) AND the schedule ran more than one tick.",
     time_unit: "scheduled ticks",
     real: &[
